@@ -7,7 +7,7 @@ HOOK_COMMITS = subprocess.run(["git", "-C", "/repo", "log", "--format=%H", "--gr
 
 # id -> (engine, technique, level text, level note, design ref)
 CHECKS = {
- "C01": ("p2v-inproc", "bounded-exhaustive enumeration of short character/token sequences + proptest token soup and mutated texts; totality oracle",
+ "C01": ("p2v-inproc", "bounded-exhaustive enumeration of short character/token sequences and of every Unicode scalar value in ten lexical positions + proptest token soup and mutated texts; totality oracle",
          "Every text of <=3 characters over the scanner's dispatch alphabet and every sequence of <=3 (quick) / <=4 (thorough) vocabulary tokens is pushed through the real scanner, parser and compiler in-process, plus proptest-generated token soup and mutated example programs; any panic, native crash or hang is a violation. Exploration, not proof: texts longer than the enumerated bound are only sampled.",
          "trusts that the in-process pipeline mirrors run_buf (compile only when no parse errors); nesting >64 not generated", "DESIGN.md §4 C01"),
  "C09": ("p2v-inproc", "exhaustive operator x operand-kind table over boundary values against a reference table, plus proptest random operands and relational consistency laws",
@@ -16,7 +16,7 @@ CHECKS = {
  "C02": ("p2v-inproc", "proptest-driven type-directed program generator; differential against an independent reference interpreter (compile verdict, observation sequence, final value, runtime-error presence/class); fault injection for the must-reject clause",
          "Generated programs (literals incl. boundaries, all operators, let/assignment, arrays, maps, indexing, if/match as values, bounded loops with labelled jumps, functions, closures with private state, recursion through helpers, pure builtins) are rendered to text and run through the real scanner+parser+compiler+VM; an independent reference interpreter written from the property statement gives the expected observations. Programs with exactly one injected fault must be rejected by the compiler.",
          "trusts the reference interpreter (harness/src/hx/interp.rs, ops.rs, builtins_ref.rs); programs entering declared don't-care zones are executed for crashes only", "DESIGN.md §3.1, §4 C02"),
- "C03": ("p2v-inproc", "bounded-exhaustive operator-pair / prefix / postfix / assignment trees plus proptest random trees; metamorphic oracle: minimally parenthesised text (documented table) vs fully parenthesised text",
+ "C03": ("p2v-inproc", "bounded-exhaustive operator-pair / prefix / postfix / assignment trees (the pairs again inside eleven parser surroundings) plus proptest random trees; metamorphic oracle: minimally parenthesised text (documented table) vs fully parenthesised text",
          "Every ordered pair of the 18 binary operators in both nesting positions, every prefix x binary and postfix combination and assignment chains are rendered with only the parentheses the documented precedence table requires and fully parenthesised; both texts must evaluate alike through the real pipeline. A case counts only if some wrong grouping would evaluate differently.",
          "relation between two runs of p2sh (a defect changing both identically is invisible; C02/C09 cover the absolute side); table transcribed from docs/language/expression-precedence.md", "DESIGN.md §4 C03"),
  "C04": ("p2v-inproc", "proptest scope-scenario generator (shadowing, sibling blocks, closures over block-locals/params/globals, calls after mutation); differential against an independent lexical resolver + reference interpreter",
@@ -28,7 +28,7 @@ CHECKS = {
  "C06": ("p2v-inproc", "exhaustive value-kind x truthiness-position table and all ordered pairs for && / || with side-effect probes; proptest nested logical trees; documented table as oracle",
          "27 representative values in every truthiness position (!v, !!v, if, else-if, while, &&, ||) and all 27x27 pairs for && and || with a probe around the right operand are checked against the documented truthiness table; the result must be the operand value and the probe must fire exactly when stated.",
          "the filter-pattern position is exercised through the real binary (each value and derived && / || / ! expressions as the pattern of a filter with and without an action)", "DESIGN.md §4 C06, §8.5"),
- "C07": ("p2v-inproc", "proptest statement sequences stepped REPL-style with the operand-stack height read through a hook after every top-level statement; 10^4-iteration loops must not overflow; named detector for the known finding",
+ "C07": ("p2v-inproc", "proptest statement sequences stepped REPL-style with the operand-stack height read through a hook after every top-level statement and around every single filter execution (filters driven in-process as run_filters does); 10^4-iteration loops must not overflow; named detector for the known finding",
          "Generated statement sequences (if/match as operands, branches ending in nested blocks/lets/nothing, break/continue inside operand positions) are compiled and run one top-level statement at a time the way the REPL does; the VM's stack height must be 0 after each. Loops of 10^4 iterations around generated statements must not report a stack overflow and must agree with the reference.",
          "needs hook VM::verif_sp; statement stepping replicates run_prompt via the public Compiler/VM API", "DESIGN.md §4 C07"),
  "C10": ("p2v-inproc", "exhaustive key-pair table (against reference equality and, metamorphically, against the implementation's own ==) plus proptest insert/lookup histories against an association-list model",
@@ -43,7 +43,7 @@ CHECKS = {
  "C13": ("p2v-inproc", "proptest generator placing one failing single-line construct at a known line after random filler (functions, filters, multi-line literals, CRLF); oracle: reported line == constructed line",
          "Programs with 0..14 filler constructs followed by exactly one failing construct (66 kinds: division by zero, bad index/key, operand kinds, unary, non-function call, arity, every pure builtin, property access) at top level, in functions, closures, loops or nested expressions; the runtime error must carry the line the construct was written on.",
          "only single-line constructs are generated (the property's proviso); the [line N] prefix printed by the real binary is checked for script files and -c texts, also with leading blank lines", "DESIGN.md §4 C13, §8.5"),
- "C14": ("p2v-inproc", "exhaustive encode/decode round trip over every opcode and operand value; decoder walk of generated programs' bytecode; programs constructed at, below and above each encoding limit",
+ "C14": ("p2v-inproc", "exhaustive encode/decode round trip over every opcode and operand value; decoder walk of generated programs' bytecode; hand-assembled instruction streams at the corners of each operand range run by the real VM; programs constructed at, below and above each encoding limit",
          "All 17.4 million (opcode, operands) combinations round-trip through make/read_operands; generated programs' bytecode is walked with the decoder (valid opcodes, jump targets on instruction boundaries, constant indices in range); limit programs for constants, jump targets (8 constructs), locals, call arguments, captured variables and REPL-accumulated constants must be rejected above the limit and behave correctly at/below it.",
          "global-index and array/map-literal limit programs take minutes to compile and run in the thorough tier only", "DESIGN.md §4 C14"),
  "C15": ("p2v-inproc", "proptest structure-aware frame generator x random read-only access histories; identity oracle on the serialised packet (bytes in = bytes out), truncation sweeps at every length, same identity through pcap_write / write into scratch files",
